@@ -99,7 +99,7 @@ def encode(data, rng=None, mode='greedy'):
         return bytes(out)
     while i < n - 12:
         key = data[i:i + 4]
-        cand = table.get(key, [])
+        cand = list(table.get(key, ()))
         table.setdefault(key, []).append(i)
         use = None
         cs = [c for c in cand if i - c <= 65535]
